@@ -58,6 +58,10 @@ def detect(name, checks=None):
     rc, out = sh("git -C /repo apply %s/patch.diff" % d)
     assert rc == 0, out
     res = {}
+    saved = {}
+    for c in checks:   # evidence/<id>.json must stay the record of the run on the UNCHANGED tree
+        p = os.path.join(ROOT, "evidence", c + ".json")
+        saved[p] = open(p).read() if os.path.exists(p) else None
     try:
         for c in checks:
             t = time.time()
@@ -69,6 +73,9 @@ def detect(name, checks=None):
     finally:
         sh("git -C /repo checkout -- .")
         sh("git -C /repo clean -fdq")
+        for p, txt in saved.items():
+            if txt is not None:
+                open(p, "w").write(txt)
     json.dump(res, open(os.path.join(d, "detect.json"), "w"), indent=1)
     print(name, json.dumps(res)[:700])
 
